@@ -7,11 +7,14 @@ import (
 )
 
 // C09: case forms (see coq/Extract/RunC09.v)
-//   (1 bytes)           parsePSIData + toData on a payload unit: the three-way outcome
-//   (2 bytes off mask)  the same after XOR-ing mask into the unit at byte offset off
-//   (3 psidata)         writePSIData, then the outcome of parsing what was written
+//
+//	(1 bytes)           parsePSIData + toData on a payload unit: the three-way outcome
+//	(2 bytes off mask)  the same after XOR-ing mask into the unit at byte offset off
+//	(3 psidata)         writePSIData, then the outcome of parsing what was written
+//
 // outcome: (0 (table ...)) -- one (EIT NIT PAT PMT SDT TOT) entry per delivered table, () = nothing --,
-//          (1 code) error, (2) panic
+//
+//	(1 code) error, (2) panic
 type c09 struct{}
 
 func init() { props["C09"] = c09{} }
@@ -58,9 +61,9 @@ func psiBurstMask(r *Rng, sbit, nbits int) []byte {
 
 func (c09) Gen(r *Rng, tier string, emit func(string, Tok)) {
 	thorough := tier == "thorough"
-	scale := 1
+	scale, unitScale := 1, 1
 	if thorough {
-		scale = 10
+		scale, unitScale = 10, 5
 	}
 	// small sections of the six types: every single-bit flip, every truncation, every one-byte substitution position
 	small := 5
@@ -116,7 +119,7 @@ func (c09) Gen(r *Rng, tier string, emit func(string, Tok)) {
 	}
 	sweep("every single-bit flip and every truncation point of the small sections (<= 61 bytes) of each of the six table types")
 	// sections of any size, 1..3 per unit: sampled flips (all in thorough), substitutions, bursts, truncations, extensions
-	for k := 0; k < 60*scale; k++ {
+	for k := 0; k < 60*unitScale; k++ {
 		n := 1
 		if k%4 == 0 {
 			n = r.Range(2, 3)
@@ -133,12 +136,16 @@ func (c09) Gen(r *Rng, tier string, emit func(string, Tok)) {
 		bs := psiRefEncodeUnit(d, nil)
 		emit("intact", L(I(1), B(bs)))
 		nbits := 8 * (len(bs) - 1)
-		if thorough && len(bs) <= 1100 {
+		if thorough && len(bs) <= 300 {
 			for bit := 8; bit < 8*len(bs); bit++ {
 				emit("bitflip-all", L(I(2), B(bs), I(int64(bit/8)), B([]byte{0x80 >> uint(bit%8)})))
 			}
 		} else {
-			for j := 0; j < 24; j++ {
+			nflips := 24
+			if thorough {
+				nflips = 200
+			}
+			for j := 0; j < nflips; j++ {
 				bit := 8 + r.Intn(nbits)
 				if j < 6 {
 					bit = 8 + r.Intn(24) // table id and section_length
@@ -253,7 +260,7 @@ func psiOutcomeOracle(bs []byte, obs Tok) string {
 	case 2:
 		return "parsePSIData panics"
 	case 1:
-		if want.At(0).Int() != 1 {
+		if want.At(0).Int() != 1 && !info.typedDesc {
 			return "the demuxer reports an error for a unit the reference decoder accepts (" + psiShort(want.String()) + ")"
 		}
 	case 0:
